@@ -3,6 +3,7 @@ package main
 import (
 	"fmt"
 	"go/ast"
+	"go/token"
 	"strings"
 )
 
@@ -29,6 +30,18 @@ func closureChain(fn *ast.FuncDecl) ([]*ast.FuncLit, *ast.BlockStmt) {
 	var chain []*ast.FuncLit
 	body := fn.Body
 	for {
+		// v := func(...) {...}; return v  is  return func(...) {...}  (v comes into scope only after the literal)
+		if len(body.List) == 2 {
+			as, ok1 := body.List[0].(*ast.AssignStmt)
+			ret, ok2 := body.List[1].(*ast.ReturnStmt)
+			if ok1 && ok2 && as.Tok == token.DEFINE && len(as.Lhs) == 1 && len(as.Rhs) == 1 && len(ret.Results) == 1 {
+				if lit, ok := as.Rhs[0].(*ast.FuncLit); ok && canon(as.Lhs[0]) == canon(ret.Results[0]) && canon(as.Lhs[0]) != "_" {
+					chain = append(chain, lit)
+					body = lit.Body
+					continue
+				}
+			}
+		}
 		if len(body.List) != 1 {
 			return chain, body
 		}
